@@ -23,6 +23,18 @@ CHECKS = {
          "populated address -> value; registered unit -> context); the real datastore classes are driven through the same small blocks "
          "and through real-size blocks around every boundary (0, 1, 65535, 65536) and each operation is validated by TLC.", "4 C18",
          "TLC model checking of BlocksMC + TLC trace validation (BlocksTrace) of operation sequences on the real classes"),
+ "C01": ("ModbusPDU", "exploration",
+         "The PDU layouts of the standard are an executable TLA+ codec (ModbusPDU). TLC (a) proves the codec self-consistent over a boundary "
+         "domain of ~12k messages of every class (round trip, 253-byte bound, byte-count rule, exception layout) and exports each as a vector, "
+         "(b) computes the standard's PDU for thousands of random messages; the real encoders are compared byte-for-byte and the real "
+         "server/client decoders field-by-field, every comparison evaluated by TLC. Exhaustive 16-bit sweeps per field in the thorough tier. "
+         "It is exploration with an independent oracle, not a proof over all field combinations.", "4 C01 and 6",
+         "TLC as executable oracle (PduMC/PduGen) + TLC trace validation (PduTrace) of real encode/decode calls"),
+ "C02": ("ModbusPDU", "model_checking",
+         "MsgObjectMC: all encode/decode call histories on one message object (purity, determinism, no accumulation, round trip, fixed "
+         "point), deviations rejected; histories of real calls on real objects of every class (PduMC boundary domain + random) are "
+         "recorded with field projections before/after and validated by TLC relationally.", "4 C02",
+         "TLC model checking of MsgObjectMC + TLC trace validation (PduTrace) of call histories on real objects"),
 }
 NA_REASON = "check not built yet in this round (see DESIGN.md section 8 for the order of work); no claim is made"
 ALL = ["C%02d" % i for i in range(1, 21)]
